@@ -114,6 +114,7 @@ func flushPools() {
 
 func setupRuntime(tsan bool) {
 	debug.SetPanicOnFault(true)
+	setEngineQuiet(tsan)
 	if !tsan {
 		runtime.GOMAXPROCS(1)
 		debug.SetGCPercent(-1)
